@@ -18,17 +18,17 @@ inductive Decomp (L : Str → Str → Prop) (ceq : Char → Char → Bool) : Lis
   | lit {c d ts s vs} : ceq c d = true → Decomp L ceq ts s vs → Decomp L ceq (.lit c :: ts) (d :: s) vs
   | grp {n re ts v s vs} : L re v → Decomp L ceq ts s vs → Decomp L ceq (.grp n re :: ts) (v ++ s) ((n, v) :: vs)
 
-/-- What is assumed of the `regex` crate for one case-sensitivity setting: `full p s` = `^p$` matches `s`,
-`search p s` = `p` matches somewhere in `s`, `caps p s` = the named groups of the match of `^p$`.
-`L` is the language of the marker expressions under that setting. -/
+/-- What is assumed of the `regex` crate about the pattern built from ONE token list `ts`, for one
+case-sensitivity setting: `full p s` = `^p$` matches `s`, `search p s` = `p` matches somewhere in `s`, `caps p s` =
+the named groups of the match of `^p$`.  `L` is the language of the marker expressions under that setting. -/
 structure EngineLaws (L : Str → Str → Prop) (ceq : Char → Char → Bool)
-    (full search : Str → Str → Bool) (caps : Str → Str → Option (List (Str × Str))) : Prop where
-  full_iff : ∀ ts s, full (renderRegex ts) s = true ↔ ∃ vs, Decomp L ceq ts s vs
-  search_iff : ∀ ts s, search (renderRegex ts) s = true ↔ ∃ a mid b vs, s = a ++ mid ++ b ∧ Decomp L ceq ts mid vs
+    (full search : Str → Str → Bool) (caps : Str → Str → Option (List (Str × Str))) (ts : List Tok) : Prop where
+  full_iff : ∀ s, full (renderRegex ts) s = true ↔ ∃ vs, Decomp L ceq ts s vs
+  search_iff : ∀ s, search (renderRegex ts) s = true ↔ ∃ a mid b vs, s = a ++ mid ++ b ∧ Decomp L ceq ts mid vs
   /-- the engine returns the groups of SOME decomposition (which one is its business) -/
-  caps_sound : ∀ ts s m, (groupNames ts).Nodup → caps (renderCapture ts) s = some m →
+  caps_sound : ∀ s m, (groupNames ts).Nodup → caps (renderCapture ts) s = some m →
     ∃ vs, Decomp L ceq ts s vs ∧ ∀ n, m.lookup n = vs.lookup n
-  caps_complete : ∀ ts s, (groupNames ts).Nodup → (∃ vs, Decomp L ceq ts s vs) → (caps (renderCapture ts) s).isSome = true
+  caps_complete : ∀ s, (groupNames ts).Nodup → (∃ vs, Decomp L ceq ts s vs) → (caps (renderCapture ts) s).isSome = true
 
 theorem decomp_inst (L : Str → Str → Prop) (ceq : Char → Char → Bool) (hrefl : ∀ c, ceq c c = true)
     (ts : List Tok) (v : Str → Str) (hacc : ∀ n re, Tok.grp n re ∈ ts → L re (v n)) :
